@@ -82,6 +82,13 @@ add("C13", "exploration",
     "Trusted: the Python definitions written from BUILTINS.md, nlrun serialiser, Hypothesis. partition's result kind not asserted.",
     "DESIGN.md §3 C13")
 
+add("C14", "fault_enumeration",
+    "exhaustive fault enumeration: every pure builtin x argument tuples (k<=3) from a 54-value pool of all kinds and faults, and every statement template x operand tuples, each inside try/catch with panic capture; plus Hypothesis-generated faulty statements",
+    "Allowed outcomes are a value or an error delivered to catch; a panic (catch_unwind + hook), a process abort (isolated by re-running), "
+    "fuel exhaustion or a 20 s stall on small finite arguments is a violation; afterwards the session and unrelated variables are probed.",
+    "Trusted: nlrun panic capture. Resource classes (huge counts to size-like builtins, infinite streams) excluded by construction and counted.",
+    "DESIGN.md §3 C14")
+
 NOT_APPLICABLE = {
 }
 
